@@ -101,8 +101,59 @@ class _IfAssignToIfExp(ast.NodeTransformer):
         return node
 
 
+class _AppendLoopToComprehension(ast.NodeTransformer):
+    """`x = []` + `for t in it: [if c: [if d:]] x.append(e)` (nothing else in the loop, x not read in it)  ->  `x = [e for t in it if c if d]`."""
+
+    def _block(self, stmts):
+        out = []
+        i = 0
+        while i < len(stmts):
+            a = stmts[i]
+            b = stmts[i + 1] if i + 1 < len(stmts) else None
+            new = None
+            if (isinstance(a, ast.Assign) and len(a.targets) == 1 and isinstance(a.targets[0], ast.Name) and isinstance(a.value, ast.List) and not a.value.elts
+                    and isinstance(b, ast.For) and not b.orelse and len(b.body) == 1):
+                name = a.targets[0].id
+                ifs = []
+                cur = b.body[0]
+                while isinstance(cur, ast.If) and not cur.orelse and len(cur.body) == 1:
+                    ifs.append(cur.test)
+                    cur = cur.body[0]
+                if (isinstance(cur, ast.Expr) and isinstance(cur.value, ast.Call) and isinstance(cur.value.func, ast.Attribute) and cur.value.func.attr == "append"
+                        and isinstance(cur.value.func.value, ast.Name) and cur.value.func.value.id == name and len(cur.value.args) == 1 and not cur.value.keywords):
+                    elt = cur.value.args[0]
+                    reads = [x for part in [b.iter, elt] + ifs for x in ast.walk(part) if isinstance(x, ast.Name) and x.id == name]
+                    if not reads:
+                        comp = ast.ListComp(elt=elt, generators=[ast.comprehension(target=b.target, iter=b.iter, ifs=ifs, is_async=0)])
+                        new = ast.Assign(targets=[a.targets[0]], value=comp)
+                        ast.copy_location(new, a)
+                        ast.copy_location(comp, a)
+                        new.end_lineno, new.end_col_offset = getattr(b, "end_lineno", None), getattr(b, "end_col_offset", None)
+                        comp.end_lineno, comp.end_col_offset = new.end_lineno, new.end_col_offset
+            if new is not None:
+                out.append(new)
+                i += 2
+            else:
+                out.append(a)
+                i += 1
+        return out
+
+    def generic_visit(self, node):
+        super().generic_visit(node)
+        for fld in ("body", "orelse", "finalbody"):
+            v = getattr(node, fld, None)
+            if isinstance(v, list) and v and isinstance(v[0], ast.stmt):
+                setattr(node, fld, self._block(v))
+        return node
+
+
 def canonicalise(tree: ast.Module) -> ast.Module:
-    return _NoElseAfterJump().visit(_IfAssignToIfExp().visit(_InlineReturnTemp().visit(tree)))
+    tree = _InlineReturnTemp().visit(tree)
+    tree = _IfAssignToIfExp().visit(tree)
+    tree = _AppendLoopToComprehension().visit(tree)
+    tree = _NoElseAfterJump().visit(tree)
+    ast.fix_missing_locations(tree)
+    return tree
 
 
 class AnalysisError(Exception):
